@@ -644,8 +644,64 @@ def h_after_failure(ctx, kinds):
              % (len(done), len(kinds), frames), len(done) == len(kinds) and frames == len(kinds))]
 
 
+def h_after_peer_drop(ctx, kinds):
+    """the peer drops the connection; the socket is connected again but the new handshake has not begun: a sender that runs now must not
+    get anything onto the new connection under the previous session's cipher state (it is refused, or its stanza is dropped)"""
+    from checks import c16
+    tr = Tracer()
+    st, insts, disp, iq, key = build(tr, False)
+    net = insts[0]
+    do_send("app", insts, iq, 1)                       # the session is in use
+    n_before = len(disp.out)
+    net.onDisconnected()                               # peer closed
+    c16.run_loop(st)
+    net.connected, net.state = True, net.STATE_CONNECTED      # TCP connected again; login (handshake) not started yet
+    n0 = len(disp.out)
+    refused = 0
+    for i, k in enumerate(kinds):
+        try:
+            do_send(k, insts, iq, 30 + i)
+        except Exception:
+            refused += 1
+    return [("the session was in use before the drop", n_before >= 2),
+            ("after the peer dropped the connection nothing is written to the new connection with the old session (%d chunks written, %d sends refused)"
+             % (len(disp.out) - n0, refused), len(disp.out) == n0)]
+
+
+def h_big_frames(ctx):
+    """stanzas around and above 1 MiB between small ones: the peer (strict, in order) still cuts and decrypts every frame"""
+    from yowsup.structs import ProtocolTreeNode
+    from dissononce.processing.impl.cipherstate import CipherState
+    from dissononce.cipher.aesgcm import AESGCMCipher
+    size = ctx.choice("body_size", [65536 + 5, (1 << 20) - 40, (1 << 20) + 4096, 3 * (1 << 20) + 17])
+    tr = Tracer()
+    st, insts, disp, iq, key = build(tr, False)
+    do_send("app", insts, iq, 1)
+    insts[3].send(ProtocolTreeNode("message", {"id": "big", "to": "4915900000001@s.whatsapp.net", "type": "media"}, None, H.pattern_bytes("BIG", size)))
+    do_send("app2", insts, iq, 2)
+    peer = CipherState(AESGCMCipher())
+    peer.initialize_key(key)
+    stream = b"".join(disp.out)
+    frames, ok, i = 0, True, 0
+    try:
+        while i < len(stream):
+            n = int.from_bytes(stream[i:i + 3], "big")
+            ct = stream[i + 3:i + 3 + n]
+            if len(ct) != n:
+                ok = False
+                break
+            peer.decrypt_with_ad(b"", ct)
+            frames += 1
+            i += 3 + n
+    except Exception:
+        ok = False
+    return [("every length header is followed by exactly its own payload: the peer decrypts all 3 frames (%d)" % frames, ok and frames == 3)]
+
+
 def cases(tier):
-    cs = [dict(name="after-refused-send[app+keepalive]", fn=h_after_failure, args=(("app", "keepalive"),)),
+    cs = [dict(name="after-peer-drop[app+keepalive]", fn=h_after_peer_drop, args=(("app", "keepalive"),)),
+          dict(name="big-frames", fn=h_big_frames, keep_samples=8),
+          dict(name="after-refused-send[app+keepalive]", fn=h_after_failure, args=(("app", "keepalive"),)),
           dict(name="races[app+app2,1 send]", fn=h_races, args=(("app", "app2"), 1), timeout_s=900, weight=20, keep_samples=64),
           dict(name="races[coder+coder2,1 send]", fn=h_races, args=(("coder", "coder2"), 1), timeout_s=900, weight=20, keep_samples=64),
           dict(name="threads[coder+coder2,2 sends]", fn=h_schedules, args=(("coder", "coder2"), 2), timeout_s=900, weight=10),
